@@ -610,8 +610,14 @@ class HyperscanTokenizer(Tokenizer):
                 cache_dir = Path(self.cache_dir)
                 cache_dir.mkdir(exist_ok=True)
                 cache = cache_dir / fingerprint
-                if cache.exists():
-                    cache_bytes = cache.read_bytes()
+                try:
+                    cache_bytes = cache.read_bytes() if cache.exists() else None
+                except OSError:
+                    # The cache is optional: an entry that can't be read
+                    # (a directory or a broken link with that name) is
+                    # treated as missing.
+                    cache_bytes = None
+                if cache_bytes is not None:
                     try:
                         # hyperscan >= 0.5.0 added a mandatory mode argument
                         hyperscan_db = hyperscan.loadb(
@@ -647,7 +653,12 @@ class HyperscanTokenizer(Tokenizer):
                 hyperscan_db = hyperscan.Database()
                 hyperscan_db.compile(expressions=expressions, flags=flags)
                 if cache:
-                    cache.write_bytes(hyperscan.dumpb(hyperscan_db))
+                    try:
+                        cache.write_bytes(hyperscan.dumpb(hyperscan_db))
+                    except OSError:
+                        # Not being able to store the database must not
+                        # keep the freshly compiled one from being used.
+                        pass
 
             self._db = hyperscan_db
 
